@@ -25,11 +25,6 @@ theorem inotifyNewEventOp_eq (m : BitVec 32) : Gen.inotifyNewEventOp m = Fsn.ino
     Bool.or_false]
   rfl
 
-/-- the part of `newEvent` that is not a flag table (the cookie ring) is modelled by hand in
-`Model/Ring.lean` and tied by differential execution; this pins its source text. -/
-theorem inotifyNewEventOp_residue : Gen.inotifyNewEventOp.residue = [
-  "if cookie != 0 { if mask&unix.IN_MOVED_FROM == unix.IN_MOVED_FROM { w.cookiesMu.Lock() w.cookies[w.cookieIndex] = koekje{cookie: cookie, path: e.Name} w.cookieIndex++ if w.cookieIndex > 9 { w.cookieIndex = 0 } w.cookiesMu.Unlock() } else if mask&unix.IN_MOVED_TO == unix.IN_MOVED_TO { w.cookiesMu.Lock() var prev string for _, c := range w.cookies { if c.cookie == cookie { prev = c.path break } } w.cookiesMu.Unlock() e.renamedFrom = prev } }"] := rfl
-
 theorem inotifyRequest_eq (nf : Bool) (ops : BitVec 32) : Gen.inotifyRequest nf ops = Fsn.inotifyRequest nf ops := by
   have h : Gen.inotifyRequest nf ops = inotifyRequestRules.foldl
       (fun acc r => acc ||| (if r.flags.any (Fsn.opHas ops) then r.op else 0#32))
